@@ -316,6 +316,27 @@ where
 
 //============================================================================
 
+// verification hooks: compiled only with `--cfg probminhash_verif`
+#[cfg(probminhash_verif)]
+impl<H> ProbOrdMinHash2<H>
+where
+    H: Hasher + Default,
+{
+    pub fn verif_seed(&self) -> u64 {
+        self.seed
+    }
+    pub fn verif_set_seed(&mut self, seed: u64) {
+        self.seed = seed;
+    }
+    /// (indices, values) of the m*l store as left by the last hash_set (indices sorted per block)
+    pub fn verif_store(&self) -> (Vec<u64>, Vec<f64>) {
+        (self.min_store.indices.clone(), self.min_store.values.clone())
+    }
+    pub fn verif_wyhash_seed(&self) -> u64 {
+        self.min_store.wyhash_seed
+    }
+}
+
 #[cfg(test)]
 mod tests {
 
